@@ -86,33 +86,47 @@ Proof.
   destruct b as [|c b]; [discriminate|]. destruct (is_sp_ht c); discriminate.
 Qed.
 
-(* requests: blockEnd = |rest| is trusted *)
-Lemma scan_init_req_any q z :
-  scan_init ((q ++ [CR; LF; CR; LF]) ++ z) (length (q ++ [CR; LF; CR; LF])) = init_of_block (q ++ [CR; LF; CR; LF]).
+(* a block delimited by the line rule ends in LF *)
+Lemma head_len_aux_ends_lf ih cur b n N :
+  head_len_aux ih cur b n = Some N -> exists p s, b = p ++ LF :: s /\ N = n + length p + 1.
 Proof.
-  assert (Hlen : length (q ++ [CR; LF; CR; LF]) = length q + 4) by (rewrite app_length; reflexivity).
-  unfold scan_init, init_of_block. rewrite has_prefix_app_l by (rewrite Hlen; cbn; lia).
-  destruct (has_prefix strCRLF (q ++ [CR; LF; CR; LF])); [reflexivity|].
-  replace ((4 <=? length (q ++ [CR; LF; CR; LF])) && (length (q ++ [CR; LF; CR; LF]) <=? length ((q ++ [CR; LF; CR; LF]) ++ z))) with true
-    by (symmetry; apply andb_true_iff; split; apply Nat.leb_le; rewrite ?app_length; cbn; lia).
-  rewrite slice_ok by (rewrite ?app_length; cbn; lia).
-  rewrite Hlen at 1 2 3.
-  replace (length q + 4 - 4) with (length q) by lia. replace (length q + 4 - length q) with 4 by lia.
-  rewrite <- app_assoc at 1. rewrite skipn_app_exact. cbn [app firstn bind].
-  change (beq [CR; LF; CR; LF] strCRLFCRLF) with true. cbn iota.
-  rewrite slice_to by (rewrite ?app_length; lia).
-  rewrite firstn_app_exact. reflexivity.
+  revert ih cur n; induction b as [|x b IH]; intros ih cur n; cbn; [discriminate|].
+  destruct (N.eqb x LF) eqn:Ex.
+  - apply N.eqb_eq in Ex. subst x. destruct (cur_blank cur); [destruct ih|].
+    + intros [= <-]. exists [], b. split; [reflexivity|cbn; lia].
+    + intros H. destruct (IH _ _ _ H) as (p & s & -> & ->). exists (LF :: p), s. split; [reflexivity|cbn; lia].
+    + intros H. destruct (IH _ _ _ H) as (p & s & -> & ->). exists (LF :: p), s. split; [reflexivity|cbn; lia].
+  - intros H. destruct (IH _ _ _ H) as (p & s & -> & ->). exists (x :: p), s. split; [reflexivity|cbn; lia].
 Qed.
 
+Lemma idx_app_l b s i : i < length b -> idx (b ++ s) i = idx b i.
+Proof. intros H. unfold idx. now rewrite nth_error_app1. Qed.
+
+Lemma block_end_ok_app b s bE : bE <= length b -> block_end_ok (b ++ s) bE = block_end_ok b bE.
+Proof.
+  intros H. unfold block_end_ok.
+  replace (length (b ++ s) <? bE) with false by (symmetry; apply Nat.ltb_ge; rewrite app_length; lia).
+  replace (length b <? bE) with false by (symmetry; apply Nat.ltb_ge; lia).
+  destruct (bE <? 3) eqn:E3; [reflexivity|]. apply Nat.ltb_ge in E3. cbn [orb].
+  rewrite !idx_app_l by lia. reflexivity.
+Qed.
+
+(* requests (f7a0f16): blockEnd = |rest| > 0, the decision is made from the block alone — no guard *)
 Lemma scan_init_local_req rest s :
-  guard_block rest = true ->
+  head_len_aux true CurEmpty rest 0 = Some (length rest) ->
   scan_init (rest ++ s) (length rest) = scan_init rest (length rest) /\ scan_init rest (length rest) <> Ok INeedMore.
 Proof.
-  unfold guard_block. intros G. apply orb_true_iff in G as [G|G].
-  - apply beq_eq in G. subst. cbn. split; [reflexivity|discriminate].
-  - destruct (ends_with_split _ _ G) as [q ->].
-    pose proof (scan_init_req_any q []) as E0. rewrite app_nil_r in E0.
-    rewrite scan_init_req_any, E0. split; [reflexivity|apply init_of_block_answers].
+  intros HC. unfold scan_init.
+  assert (Hpre : has_prefix strCRLF (rest ++ s) = has_prefix strCRLF rest).
+  { destruct rest as [|a [|b r]]; [discriminate| |apply has_prefix_app_l; cbn; lia].
+    cbn in HC. destruct (N.eqb a LF) eqn:Ea; [|discriminate]. apply N.eqb_eq in Ea. subst a. reflexivity. }
+  rewrite Hpre. destruct (has_prefix strCRLF rest); [split; [reflexivity|discriminate]|].
+  assert (Hpos : 0 <? length rest = true) by (destruct rest; [discriminate|reflexivity]).
+  rewrite Hpos. rewrite block_end_ok_app by lia.
+  destruct (block_end_ok rest (length rest)) as [good| |]; cbn [bind]; try (split; [reflexivity|discriminate]).
+  destruct good; cbn [bind]; [|split; [reflexivity|discriminate]].
+  rewrite !slice_to by (rewrite ?app_length; lia). rewrite firstn_app_exact, firstn_all. cbn [bind].
+  split; [reflexivity|]. destruct rest as [|c t]; [discriminate|]. destruct (is_sp_ht c); discriminate.
 Qed.
 
 (* responses: blockEnd = 0, the scanner searches; the first CRLFCRLF is the block's own end because the
@@ -125,7 +139,7 @@ Proof.
   assert (Hlen : length (q ++ [CR; LF; CR; LF]) = length q + 4) by (rewrite app_length; reflexivity).
   unfold scan_init, init_of_block. rewrite has_prefix_app_l by (rewrite Hlen; cbn; lia).
   destruct (has_prefix strCRLF (q ++ [CR; LF; CR; LF])); [reflexivity|].
-  cbn [Nat.leb andb bind].
+  cbn [Nat.ltb Nat.leb bind].
   assert (Hi : index_sub strCRLFCRLF ((q ++ [CR; LF; CR; LF]) ++ z) = Some (length q)).
   { rewrite <- app_assoc.
     destruct (index_sub_le strCRLFCRLF q z) as (i & Hi & Hle).
@@ -137,7 +151,7 @@ Proof.
     rewrite <- app_assoc in HC'. rewrite HC' in HN. injection HN as <-. rewrite Hlen in HNle. lia. }
   rewrite Hi. cbn [bind]. rewrite <- Hlen.
   rewrite slice_to by (rewrite ?app_length; lia).
-  rewrite firstn_app_exact. reflexivity.
+  rewrite firstn_app_exact. cbn [bind]. reflexivity.
 Qed.
 
 Lemma scan_init_local_resp rest s :
@@ -208,12 +222,11 @@ Qed.
 
 (* ---------- C09 for requests ---------- *)
 Lemma req_parse_local cfg H s :
-  HeadComplete H -> crlf_terminated H = true ->
+  HeadComplete H ->
   req_parse_R cfg (H ++ s) = req_parse_R cfg H /\ req_parse_R cfg H <> Ok HNeedMore.
 Proof.
-  intros HC G.
+  intros HC.
   destruct (complete_head H HC) as (line & rest & pre & E & Hne & Hf & Hr & Hfl).
-  rewrite (crlf_terminated_block H pre rest E Hf) in G.
   assert (Hmain : forall z, req_parse_R cfg (H ++ z) =
             do fl <- req_line_parse line (length pre);
             match fl with
@@ -245,11 +258,12 @@ Proof.
   destruct fl as [|e|l]; try (split; [reflexivity|discriminate]).
   - exfalso. exact (req_line_parse_answers _ _ Efl).
   - unfold req_parseHeaders.
-    destruct (scan_init_local_req rest s G) as [E1 E2]. rewrite E1.
+    destruct (scan_init_local_req rest s Hr) as [E1 E2]. rewrite E1.
     destruct (scan_init rest (length rest)) as [ir| |]; cbn [bind]; try (split; [reflexivity|discriminate]).
-    destruct ir as [| | |b'].
+    destruct ir as [| | | |b'].
     + cbn. destruct (_ && _); split; try reflexivity; discriminate.
     + congruence.
+    + split; [reflexivity|discriminate].
     + split; [reflexivity|discriminate].
     + destruct (req_headers_loop _ _ _ _ _ _) as [lr| |]; cbn [bind]; try (split; [reflexivity|discriminate]).
       destruct lr as [[st n]|e]; cbn; [|split; [reflexivity|discriminate]].
@@ -291,9 +305,10 @@ Proof.
   - unfold resp_parseHeaders.
     destruct (scan_init_local_resp rest s Hr G) as [E1 E2]. rewrite E1.
     destruct (scan_init rest 0) as [ir| |]; cbn [bind]; try (split; [reflexivity|discriminate]).
-    destruct ir as [| | |b'].
+    destruct ir as [| | | |b'].
     + cbn. split; [reflexivity|discriminate].
     + congruence.
+    + split; [reflexivity|discriminate].
     + split; [reflexivity|discriminate].
     + destruct (resp_headers_loop _ _ _ _ _ _) as [lr| |]; cbn [bind]; try (split; [reflexivity|discriminate]).
       destruct lr as [[st n]|e]; cbn; split; try reflexivity; discriminate.
@@ -301,25 +316,25 @@ Qed.
 
 (* ---------- statements at the interface ---------- *)
 Theorem req_head_local cfg H S1 S2 :
-  HeadComplete H -> crlf_terminated H = true ->
+  HeadComplete H ->
   req_head_parse cfg (H ++ S1) = req_head_parse cfg (H ++ S2).
 Proof.
-  intros HC G. unfold req_head_parse.
-  destruct (req_parse_local cfg H S1 HC G) as [E1 _], (req_parse_local cfg H S2 HC G) as [E2 _].
+  intros HC. unfold req_head_parse.
+  destruct (req_parse_local cfg H S1 HC) as [E1 _], (req_parse_local cfg H S2 HC) as [E2 _].
   now rewrite E1, E2.
 Qed.
 
 Theorem req_head_local_alone cfg H S :
-  HeadComplete H -> crlf_terminated H = true ->
+  HeadComplete H ->
   req_head_parse cfg (H ++ S) = req_head_parse cfg H.
 Proof.
-  intros HC G. unfold req_head_parse. destruct (req_parse_local cfg H S HC G) as [E1 _]. now rewrite E1.
+  intros HC. unfold req_head_parse. destruct (req_parse_local cfg H S HC) as [E1 _]. now rewrite E1.
 Qed.
 
 Theorem req_no_wait cfg H :
-  HeadComplete H -> crlf_terminated H = true -> req_head_parse cfg H <> HNeedMore.
+  HeadComplete H -> req_head_parse cfg H <> HNeedMore.
 Proof.
-  intros HC G. unfold req_head_parse. destruct (req_parse_local cfg H [] HC G) as [_ E].
+  intros HC. unfold req_head_parse. destruct (req_parse_local cfg H [] HC) as [_ E].
   destruct (req_parse_R cfg H) as [r| |]; try discriminate. intros ->. now apply E.
 Qed.
 
@@ -352,12 +367,11 @@ Definition next_req : bytes := s2b "GET /b HTTP/1.1" ++ [CR; LF] ++ s2b "Host: h
 Definition bareLF_resp : bytes := s2b "HTTP/1.1 200 OK" ++ [LF] ++ s2b "Content-Length: 3" ++ [LF; LF].
 Definition some_body : bytes := s2b "abc" ++ [CR; LF; CR; LF].
 
-Theorem req_no_wait_refuted : exists H, HeadComplete H /\ req_head_parse default_cfg H = HNeedMore.
-Proof. exists bareLF_req. split; vm_compute; reflexivity. Qed.
-
-Theorem req_head_local_refuted :
-  exists H S1 S2, HeadComplete H /\ req_head_parse default_cfg (H ++ S1) <> req_head_parse default_cfg (H ++ S2).
-Proof. exists bareLF_req, [], next_req. split; [vm_compute; reflexivity|]. vm_compute. discriminate. Qed.
+(* the request-side witness of the old finding is now rejected from its own bytes *)
+Example req_bareLF_now_rejected :
+  HeadComplete bareLF_req /\ req_head_parse default_cfg bareLF_req = HErr EBadBlockEnd /\
+  req_head_parse default_cfg (bareLF_req ++ next_req) = HErr EBadBlockEnd.
+Proof. vm_compute. repeat split; reflexivity. Qed.
 
 Theorem resp_no_wait_refuted : exists H, HeadComplete H /\ resp_head_parse default_cfg H = HNeedMore.
 Proof. exists bareLF_resp. split; vm_compute; reflexivity. Qed.
